@@ -341,6 +341,20 @@ impl Workload {
             return;
         };
 
+        if !glyph.emit_to_binary && glyph.name == GlyphName::NOTDEF {
+            // The final glyph order always has a .notdef: GlyphOrder drops the non-exported source
+            // glyph and synthesizes a replacement under the same name. That name was already in the
+            // preliminary order, so no new BE job will be created for it: keep this one and make it
+            // wait for the glyph order, which is what puts the synthesized glyph into the context.
+            be_job.read_access = AccessBuilder::<AnyWorkId>::new()
+                .variant(FeWorkIdentifier::StaticMetadata)
+                .variant(FeWorkIdentifier::GlobalMetrics)
+                .variant(FeWorkIdentifier::GlyphOrder)
+                .build()
+                .into();
+            return;
+        }
+
         if !glyph.emit_to_binary {
             trace!("Skipping execution of {be_id:?}; it does not emit to binary");
             #[cfg(fontc_verif)]
